@@ -771,6 +771,7 @@ SCAN_NASTIES = [
     b"# @grog\n# name: a\n# outputs:\n#   - o\n#   - dir::d\nfoo bar: baz\n", b"# @grog\n# name: a\nfoo := 1\n", b"# @grog\n# name: a\n\xef\xbb\xbffoo:",
     b"\xef\xbb\xbf# @grog\n# name: a\nfoo:", b"# @grog\n# &x name: a\nfoo:", b"# @grog\n# a: &a [1]\n# b: [*a, *a]\nfoo:",
 ]
+STAR_MODULE_LOOP = b"def spin():\n    n = 0\n    for i in range(1 << 40):\n        n += 1\n    return n\n\nCOUNT = spin()\n"
 STAR_LOOP = b"def f():\n    for i in range(1 << 40):\n        pass\nf()\ntarget(name = \"a\", command = \"true\")\n"
 
 
@@ -1571,6 +1572,13 @@ def hang_probe(out_box, h, grog_future, drv, base, findings):
             write_file(os.path.join(ws, "pkg", "BUILD.star"), STAR_LOOP)
             write_file(os.path.join(ws, "grog.toml"), "")
             box["cli"] = run_grog(grog, ws, top, ["graph", "-o", "json"], timeout=6)
+            # ... and the same loop at the top level of a module the BUILD file load()s: the step limit binds every thread
+            top2 = os.path.join(base, "hangcli2")
+            ws2 = os.path.join(top2, "ws")
+            write_file(os.path.join(ws2, "pkg", "defs.star"), STAR_MODULE_LOOP)
+            write_file(os.path.join(ws2, "pkg", "BUILD.star"), b'load("defs.star", "COUNT")\ntarget(name = "a", command = "true")\n')
+            write_file(os.path.join(ws2, "grog.toml"), "")
+            box["cli_loaded_module"] = run_grog(grog, ws2, top2, ["graph", "-o", "json"], timeout=10)
     except Exception as e:                      # judged by the caller
         box["error"] = "%s: %s" % (type(e).__name__, e)
     out_box.update(box)
@@ -1749,6 +1757,17 @@ def judge_hang_probe(out, box, findings, stats):
             stats["cli_known"] += 1
         elif v[0] in ("hang", "panic"):
             out.violation("grog graph: %s on BUILD.star %r" % (v[0], STAR_LOOP[:50]), rep)
+
+
+    if box.get("cli_loaded_module") is not None:
+        v = cli_obs(box["cli_loaded_module"])
+        stats["cli_runs"] += 1
+        stats["cli_corrupt"]["loaded-module-probe->" + v[0]] = stats["cli_corrupt"].get("loaded-module-probe->" + v[0], 0) + 1
+        if v[0] in ("hang", "panic"):
+            out.violation("grog graph: %s on a BUILD.star that load()s a module whose top level loops without end (the execution step limit must "
+                          "bind load()ed modules too)" % v[0],
+                          {"kind": "cli-corrupt", "file": "BUILD.star + defs.star", "content_hex": STAR_MODULE_LOOP.hex(), "observed": v[0], "timeout_s": 10,
+                           "build_file": 'load("defs.star", "COUNT")\ntarget(name = "a", command = "true")\n'})
 
 
 # ------------------------------------------------------------------ replay
